@@ -7,6 +7,7 @@ package main
 // by the real MakeNfs and compared with the reference states S_lo..S_hi.
 
 import (
+	"github.com/mit-pdos/go-journal/common"
 	"bytes"
 	"fmt"
 	"runtime"
@@ -413,8 +414,16 @@ func (w *crashWork) evalImage(j imageJob, record bool) (out imageOut) {
 	if record {
 		out.base2 = d.StartRecording()
 	}
+	if j.idx%2 == 1 && !record {
+		// the journal's installer is held back while the server recovers and is
+		// looked at: whatever it builds at start-up (allocators) and serves
+		// must come through the log, not from the installed blocks
+		d.HoldHome(uint64(common.LOGSIZE))
+		defer d.ReleaseHome()
+	}
 	srv := StartSrv(d, SrvOpts{Unstable: w.cfg.Unstable})
 	got, werr := walkTree(srv.API, srv.Root, nil)
+	d.ReleaseHome()
 	for _, m := range werr.Msgs {
 		add("crash", "%s", m)
 	}
